@@ -585,7 +585,7 @@ func (ld *Layerdefs) Unmount(name string, unmountAll bool) error {
 		return err
 	}
 	if !unmountAll {
-		fmt.Errorf("Must specify a layer to unmount or -all switch")
+		return fmt.Errorf("Must specify a layer to unmount or -all switch")
 	}
 	busyLayers := make([]string, 0, len(ld.normalizedOrder))
 	for i := len(ld.normalizedOrder) - 1; i >= 0; i-- {
